@@ -150,6 +150,10 @@ class System:
         return t, k, o
 
     def factory_sync(self, name, deps):
+        if name in getattr(self, "fail_once", ()):
+            # a factory that raises on its own (a connection that cannot be made yet), once
+            self.fail_once = [x for x in self.fail_once if x != name]
+            raise RuntimeError("factory %s is not available yet" % name)
         return self._new_obj(name, deps)[2]
 
     async def factory(self, name, deps, _async):
@@ -355,3 +359,27 @@ def explore(prog, procs, same_run=False, max_traces=None):
 
     rec([])
     return traces
+
+
+def factory_failure_cases():
+    """A factory raises on its own (no cycle) while an invocation resolves its resources; a LATER invocation on the same
+    workflow instance resolves the same resources.  -> records {label, first, second, second_fresh}"""
+    out = []
+    base = {"deps": {"a": [], "b": ["a"], "c": []}, "asyncf": {"a": False, "b": False, "c": False}}
+    for failing in ("a", "b"):
+        for cache_a in (True, False):
+            for cache_b in (True, False):
+                prog = dict(base, cache={"a": cache_a, "b": cache_b, "c": True}, params={"p1": ["b"], "p2": ["b"], "p3": ["a"]})
+                s = System(prog, ["p1", "p2", "p3"])
+                try:
+                    s.fail_once = [failing]
+                    s.apply(["begin", "p1"])
+                    first = s.status("p1")
+                    made_before = len(s.objs) if hasattr(s, "objs") else 0
+                    s.apply(["begin", "p2"])
+                    s.apply(["begin", "p3"])
+                    out.append({"label": "factory %s raises once, cache a=%s b=%s" % (failing, cache_a, cache_b),
+                                "first": first, "second": s.status("p2"), "third": s.status("p3")})
+                finally:
+                    s.close()
+    return out
